@@ -116,6 +116,11 @@ def run(ctx):
     def per_case(case, res):
         if res["status"] == "ok":
             fnum.compare_static(ctx, interp, case, res, fp.failer(ctx, case))
+            # the hypothesis of C07b's bounds, on this very input: every stored weight / bias code is within (half) a step of the float value.
+            # (against the float outputs a 4-bit model is judged with a bound of the order of the magnitude itself, which garbage weights
+            # would pass; the stored constants are what the integer kernel reads)
+            from .. import oracles as orc
+            orc.oracle_c05(ctx, case, res, fp.failer(ctx, case, prefix="[stored constants of the static-range model] "))
     try:
         fp.explore(ctx, drv, 350 if ctx.tier == "quick" else 2500, per_case, gen=gen, graph_corr=False, pipe_corr=True)
         # operators whose WEIGHT operand is a runtime tensor (tf.matmul with a non-constant right-hand side becomes FULLY_CONNECTED;
